@@ -29,6 +29,7 @@ ALL_FEATURES = [
     "alloptions", "shape_change", "never_keys", "partial_section_preset",
     "coalesce_value_fail",  # coalesce members that can fail because of a *value* (domain / switch)
     "abstract", "selector_ds", "step_params", "pipelines",
+    "wide_values",  # dictionary values beyond the small scalar universe (floats, big ints, long / non-ASCII strings, nested lists)
     "opt_type",  # Options with a declared type (type validation requests)
     "callback_params",  # callbacks that are pipeline steps reading an option of their own
     "iter",  # tuples built with labrea.Iter(...).apply(tuple) (lazy members)
